@@ -28,9 +28,10 @@ TRUSTED = ['f64 arithmetic is exact on the generated data (integers < 2^31, dyad
            'strictly increasing list (C16_binary_search_refines) and compared with the real slice::binary_search on every run '
            '(sub-stream c16_doc, op bs); sets with equal truncated timestamps inside a profile are only compared on acceptance',
            'haversine trigonometry (libm sin / cos / atan2) is not modelled: the approximation is proved relative to an '
-           'abstract distance function (symmetric, zero on equal points); the real function is NOT exactly symmetric in '
-           'binary64 (finding C16-F6); its raw values are recovered through the public API and everything after them '
-           '(rounding, division by the speed, per-profile matrices, provider answers) is compared exactly']
+           'abstract distance function (symmetric, zero on equal points); the STRUCTURE of the real function is modelled over '
+           'abstract operations and proved symmetric (C16_haversine_structure_symmetric; it was not before repair d74b2b6, '
+           'finding C16-F6); its raw values are recovered through the public API, checked to be exactly symmetric, and '
+           'everything after them (rounding, division by the speed, per-profile matrices, provider answers) is compared exactly']
 ASSUMPTIONS = ['times and timestamps are below 2^53 and u64 saturation of `as u64` is only reached at 0',
                'HashMap grouping keeps per-key insertion order (collect_group_by pushes in iteration order)']
 
@@ -633,6 +634,10 @@ def spec_answer(group, n, scale, fr, to, t):
     for j in range(len(ms) - 1):
         if stamps[j] < t < stamps[j + 1]:
             l, r = F(ms[j]['du'][idx]), F(ms[j + 1]['du'][idx])
+            if l < 0 or r < 0:
+                # a negative value is the unreachable marker: the entry in force is the left one, as for the distance
+                # (the code interpolated through the marker before repair d8f731f of /repo, finding C16-F5)
+                return l * scale, F(ms[j]['di'][idx]), None, None
             lin = l + (t - stamps[j]) / (stamps[j + 1] - stamps[j]) * (r - l)
             return lin * scale, F(ms[j]['di'][idx]), min(l, r) * scale, max(l, r) * scale
     return None
@@ -956,10 +961,12 @@ MANIFEST_TEXT = ('Machine-checked proof (Coq, no axioms) over an executable rati
                  'fleet profiles; consistent core sets are accepted (rejection exactly when inconsistent); the provider is invariant '
                  'under permutation of the supplied matrices; the real binary-search loop refines the contract model on every '
                  'strictly increasing list; approximated matrices are round(hav) / round(hav / speed of the profile), symmetric with '
-                 'zero diagonal for an exactly symmetric hav. Four further deviations of the real code are recorded as findings with '
-                 'Coq witnesses (unknown matrix name attached by position, errorCodes path skipping the length checks, unreachable '
-                 'marker interpolated to a non-negative duration, last-bit asymmetry of the haversine function surfacing in the '
-                 'rounded matrix).')
+                 'zero diagonal for an exactly symmetric hav, and the structure of the haversine function is symmetric over any '
+                 'carrier with commutative multiplication and the sign laws of binary64. Four further deviations of the real code '
+                 'were found; three are repaired in /repo and followed by the model, with the pre-fix functions kept for the witness '
+                 'theorems and one regression mutant each: errorCodes path skipping the length checks (7d3c5fe), unreachable marker '
+                 'interpolated to a non-negative duration (d8f731f), last-bit asymmetry of the haversine function surfacing in the '
+                 'rounded matrix (d74b2b6); one stays open: a matrix whose profile name is no fleet profile is attached by position.')
 MANIFEST_NOTE = ('Trusted: Coq kernel + vm_compute; harness, generators, comparison; exactness of f64 on the generated dyadic data '
                  '(validated by the exact comparison); binary_search contract; haversine trigonometry not modelled.')
 MANIFEST_TECHNIQUE = 'Coq proof over executable model + vm_compute differential correspondence with the Rust implementation'
